@@ -516,7 +516,54 @@ Proof.
             (collect_entries_correct _ f pats k Hk). reflexivity.
 Qed.
 
+(** * 9. a boolean test of the stage order, robust to a reordering of the (commuting) overrides *)
+
+Definition stage_eqb (a b : stage) : bool :=
+  match a, b with
+  | StFormat, StFormat | StDirname, StDirname | StBasename, StBasename | StExt, StExt | StPadding, StPadding
+  | StRange, StRange | StInverted, StInverted | StIndex, StIndex | StFrame, StFrame => true
+  | _, _ => false
+  end.
+Lemma stage_eqb_eq : forall a b, stage_eqb a b = true -> a = b.
+Proof. intros a b; destruct a, b; simpl; intros H; try reflexivity; discriminate H. Qed.
+
+(** reformat first, then the five component overrides in ANY order, then inversion, then index, then frame *)
+Definition pipeline_ok (pl : list stage) : bool :=
+  match pl with
+  | StFormat :: a :: b :: c :: d :: e :: [StInverted; StIndex; StFrame] =>
+    forallb (fun s => existsb (stage_eqb s) [a; b; c; d; e]) override_block
+  | _ => false
+  end.
+
+Lemma pipeline_ok_shape : forall pl, pipeline_ok pl = true ->
+  exists mid, Permutation override_block mid /\ pl = StFormat :: mid ++ [StInverted; StIndex; StFrame].
+Proof.
+  intros pl H. unfold pipeline_ok in H.
+  destruct pl as [|s0 pl]; [discriminate H|]. destruct s0; try discriminate H.
+  destruct pl as [|a [|b [|c [|d [|e [|i pl]]]]]]; try discriminate H.
+  destruct i; try discriminate H.
+  destruct pl as [|x pl]; [discriminate H|]. destruct x; try discriminate H.
+  destruct pl as [|f pl]; [discriminate H|]. destruct f; try discriminate H.
+  destruct pl as [|z r]; [|discriminate H].
+  exists [a; b; c; d; e]. split; [|reflexivity].
+  apply NoDup_Permutation_bis.
+  - unfold override_block. repeat (apply NoDup_cons; [cbn [In]; intros K; repeat (destruct K as [K|K]; [discriminate K|]); exact K|]).
+    apply NoDup_nil.
+  - reflexivity.
+  - intros s Hs. rewrite forallb_forall in H. specialize (H s Hs). apply existsb_exists in H.
+    destruct H as [y [Hy E]]. apply stage_eqb_eq in E. subst y. exact Hy.
+Qed.
+
+
+Theorem pipeline_ok_runs_as_documented : forall pl pattern o refmt, pipeline_ok pl = true ->
+  seqinfo_run pl pattern o refmt = seqinfo_parse pattern o refmt.
+Proof.
+  intros pl pattern o refmt H. destruct (pipeline_ok_shape _ H) as [mid [HP E]].
+  rewrite E. apply seqinfo_any_override_order. exact HP.
+Qed.
+
 Print Assumptions seqinfo_run_reference.
+Print Assumptions pipeline_ok_runs_as_documented.
 Print Assumptions stage_order_is_the_documented_one.
 Print Assumptions overrides_commute_gen.
 Print Assumptions overrides_commute.
